@@ -262,6 +262,15 @@ def expected_of(ck, name, c):
     case: evaluated inside Coq, handed back as rows over the pools of the generated file.  None when the evaluation fails."""
     P = Pool()
     body = case_to_coq(P, c)
+    # label sets the reference may prescribe although the real chain never showed them: every pooled label set minus the labels a
+    # drop stage of the chain names (a drop that misses a parameter leaves the right label set nowhere in the observation); names only
+    # the printed `expected`, never a verdict
+    dnames = sorted({n for st in c.get("chain") or [] if st.get("k") == "drop" for n in st.get("names") or []})[:5]
+    for items in list(P.lbls):
+        d = {k.decode("utf8", "surrogateescape"): v.decode("utf8", "surrogateescape") for k, v in items}
+        hit = [n for n in dnames if n in d]
+        for mask in range(1, 1 << len(hit)):
+            P.l({k: v for k, v in d.items() if not any(k == n and mask >> i & 1 for i, n in enumerate(hit))})
     lnames = sorted(P.lbls.items(), key=lambda kv: int(kv[1][1:]))
     snames = sorted(P.strs.items(), key=lambda kv: int(kv[1][1:]))
     txt = (PRELUDE + "\n".join(P.defs) + "\nDefinition E := Eval vm_compute in expected_rows %s %s\n  %s.\nPrint E.\n" % (
@@ -969,7 +978,7 @@ def run(ck):
     ck.coverage["distinct_nontrivial"] += len(distinct)
     ck.coverage["rule"] += ("generated LogQL query strings (log, range-aggregation, unwrap, vector-aggregation with by/without and comparisons; 0-4 extra stages after the "
                             "breakpoint stage; ranges in s / m / ms / us / ns, half of the metric queries with a range that is not a whole number of seconds) planned by the production planner, upstream of 0-13 entries over 1-3 series in random batchings (whole, singletons, random cuts, "
-                            "empty batches) ending in io.EOF / an error / nothing, limits 0..40 and negative ones, ill-typed label-filter heads, streams collapsing to one label set under by/without or drop, malformed and non-object lines in 1 case of 12; non-trivial = >=2 data entries, "
+                            "empty batches) ending in io.EOF / an error / nothing, limits 0..40 and negative ones, ill-typed label-filter heads, streams collapsing to one label set under by/without or drop, drop stages naming one label several times (own stream, N/25+5 cases), malformed and non-object lines in 1 case of 12; non-trivial = >=2 data entries, "
                             ">=2 batches, >=3 in-process stages; distinct by (query, batches, window, limit). ")
     ck.extra["input_distribution"] = hist
     # ranges of the generated metric queries: how many are not a whole number of seconds, and how many of those run a rate
@@ -989,4 +998,29 @@ def run(ck):
     ck.obligation("the generator reaches in-process rates over ranges that are not a whole number of seconds (ms / us / ns units; %d such cases sent samples, %d of them with a sub-millisecond part or below 1 ms)" % (
         frac_rate, sum(rk.get(k_, {}).get("in_process_rate_with_samples", 0) for k_ in ("sub-ms-part", "<1ms"))),
         ck.replay is not None or frac_rate >= ck.n(30, 300), "range kinds: %s" % {k_: d["in_process_rate_with_samples"] for k_, d in rk.items()})
+    # drop stages naming one label several times (round 7, seed C09-g): how many ran in process, and on how many of them an entry
+    # reaching the stage carries a label whose fate differs between "some parameter hits it" (the definition, both engines) and
+    # "the last parameter naming the label decides" (one value per name)
+    dr = {"in_process_drop_stages": 0, "with_a_repeated_name": 0, "repeat_decides_an_entry": 0, "forms": {}}
+    for c in allcases:
+        if c.get("mode", "") == "fp" or c["out"]["err"] != "":
+            continue
+        for j, st in enumerate(c.get("chain") or []):
+            if st.get("k") != "drop":
+                continue
+            dr["in_process_drop_stages"] += 1
+            names, vals = st.get("names") or [], st.get("vals") or []
+            if len(set(names)) == len(names):
+                continue
+            dr["with_a_repeated_name"] += 1
+            form = ", ".join("%s%s" % ("abcdefgh"[sorted(set(names), key=names.index).index(n)], "=.." if v else "") for n, v in zip(names, vals))
+            dr["forms"][form] = dr["forms"].get(form, 0) + 1
+            last = {n: v for n, v in zip(names, vals)}
+            ins = (c.get("stage_out") or [])[j - 1] if j >= 1 and len(c.get("stage_out") or []) > j - 1 else []
+            dr["repeat_decides_an_entry"] += any(
+                any(n == k and (v == "" or v == lv) for n, v in zip(names, vals)) != (k in last and (last[k] == "" or last[k] == lv))
+                for e in ins or [] if e["err"] == "" for k, lv in (e.get("labels") or {}).items())
+    ck.extra["drop_repeats"] = dr
+    ck.obligation("the generator reaches in-process drop stages that name one label several times (%d such stages, on %d of them an arriving label is removed by a parameter that is not the last one naming it)" % (
+        dr["with_a_repeated_name"], dr["repeat_decides_an_entry"]), ck.replay is not None or dr["repeat_decides_an_entry"] >= ck.n(20, 250), "forms: %s" % dr["forms"])
     ck.add_samples([{"query": c["query"], "in": c["in"], "limit": c["limit"], "out": c["out"]} for c in allcases if c.get("mode", "") != "fp" and nontrivial(c)][:3])
